@@ -34,9 +34,9 @@ from vq.gen import c05_build as build
 # ------------------------------------------------------------------------------------------------
 # tolerances (see metas/c05.py for the measurements they are based on)
 # ------------------------------------------------------------------------------------------------
-LOSS_RTOL = 1e-5  # per-iteration loss, relative
+LOSS_RTOL = 2e-5  # per-iteration loss, relative
 LR_RTOL = 1e-6  # learning-rate history, relative
-ARR_RTOL = 1e-4  # object / probe, relative to max|reference|
+ARR_RTOL = 2e-4  # object / probe, relative to max|reference|
 ARR_ATOL = 1e-6  # absolute floor (a potential object may be identically zero)
 SAME_RTOL = 1e-7  # "reports the same object/probe" right after load/clone, relative to max
 SAME_ATOL = 1e-12
@@ -404,13 +404,15 @@ def _check_resume(ctx, case):
         ctx.count("reference_run_not_finite")
         return
     losses = refs[-1]["iter_losses"]
-    if losses.size and float(np.max(losses)) > DIVERGE_FACTOR * float(losses[0]):
+    diverges = bool(losses.size and float(np.max(losses)) > DIVERGE_FACTOR * float(losses[0]))
+    if diverges:
+        # only the exact "reports the same" checks at the first boundary are meaningful
         ctx.count("reference_run_diverges")
-        return
-    if float(np.max(np.abs(refs[-1]["obj"] - init_obj))) > 1e-4:
-        ctx.count("object_moved")
-    if nontrivial:
-        ctx.count("nontrivial_and_compared")
+    else:
+        if float(np.max(np.abs(refs[-1]["obj"] - init_obj))) > 1e-4:
+            ctx.count("object_moved")
+        if nontrivial:
+            ctx.count("nontrivial_and_compared")
 
     # ---- P: same first call, then interrupted -----------------------------------------------------
     with ctx.sut(case, "first reconstruct() call on the second, identically built object"):
@@ -425,9 +427,13 @@ def _check_resume(ctx, case):
     B = _save_load(ctx, case, "boundary 1", P, case["store"], case.get("load_device"))
     C = _clone(ctx, case, "boundary 1", P)
     D = P
+    if diverges:
+        return
     for i in range(1, len(segs)):
         spec = later[i - 1]
-        runs = (("reloaded object", B), ("clone", C), ("original after save()/clone()", D))
+        runs = [("reloaded object", B), ("clone", C), ("original after save()/clone()", D)]
+        if case.get("orig_first"):
+            runs = [runs[2], runs[1], runs[0]]
         for who, o in runs:
             with ctx.sut(case, "%s: reconstruct() call %d" % (who, i + 1)):
                 _later_call(o, case, spec, segs[i])
@@ -563,40 +569,59 @@ def _lr(lo, hi):
     return st.floats(math.log10(lo), math.log10(hi)).map(lambda e: float("%.3g" % (10.0**e)))
 
 
+def _rare(draw, n):
+    """True with probability ~1/n; the simplest (shrunk / first) draw is False."""
+    return draw(st.integers(0, n - 1)) == n - 1
+
+
 @st.composite
 def _geometry(draw, with_dataset_opt):
-    side = st.sampled_from([4, 6, 8, 10, 12, 5, 7, 9])
+    side = st.sampled_from([8, 6, 4, 10, 12, 5, 7, 9])
     R, C = draw(side), draw(side)
-    gr = draw(st.integers(2, 5))
-    gc_ = draw(st.integers(2, 5))
+    gpts = [draw(st.integers(2, 5)), draw(st.integers(2, 5))]
     if with_dataset_opt:
         # scan positions are learned: keep them at integer object pixels so that no position sits near a
-        # rounding boundary (x.5), where rounding noise would legitimately flip a patch
-        step = [float(draw(st.integers(1, 3))), float(draw(st.integers(1, 3)))]
+        # rounding boundary (x.5), where rounding noise would legitimately move a patch by one pixel
+        sp = st.integers(1, 3).map(float)
     else:
         sp = st.one_of(st.integers(1, 3).map(float), _fl(1.05, 3.0, 2))
-        step = [draw(sp), draw(sp)]
+    step = [draw(sp), draw(sp)]
+    for a in (0, 1):
+        if gpts[a] == 2 and step[a] < 1.05:
+            step[a] = 2.0  # a field of view of exactly one object pixel is degenerate (build raises)
     return {
         "R": R,
         "C": C,
-        "gpts": [gr, gc_],
+        "gpts": gpts,
         "sampling": [draw(_fl(0.2, 0.8, 2)), draw(_fl(0.2, 0.8, 2))],
         "step_px": step,
         "pad": [draw(st.integers(0, 4)), draw(st.integers(0, 4))],
         "energy": draw(st.sampled_from([80e3, 200e3, 300e3])),
-        "counts": draw(st.sampled_from([1.0, 100.0, 1e4])),
+        "counts": draw(st.sampled_from([100.0, 1.0, 1e4])),
     }
 
 
 @st.composite
-def _optimizer(draw, key):
-    t = draw(st.sampled_from(["sgd", "adam", "adamw", "adam", "adamw"]))
-    if t == "sgd":
-        lr = draw(_lr(1e-3, 5e-2) if key != "dataset" else _lr(1e-4, 1e-3))
+def _optimizer(draw, key, family=None, parametric=False):
+    """family: None (free), 'sgd' or 'adam' (a later call keeps the family of the first, see _constraints)."""
+    if family == "sgd":
+        t = "sgd"
+    elif family == "adam":
+        t = draw(st.sampled_from(["adam", "adamw"]))
+    else:
+        t = draw(st.sampled_from(["adam", "adamw", "sgd", "adam", "adamw"]))
+    if key == "probe" and parametric:
+        # parameters are aberration coefficients in Angstrom / radians
+        lr = draw(_lr(1e-2, 1.0)) if t != "sgd" else draw(_lr(1e-1, 10.0))
+    elif t == "sgd":
+        if key != "dataset" and _rare(draw, 4):
+            lr = 1  # a Python int: the textbook unit step; iter_lrs then mixes ints and floats
+        else:
+            lr = draw(_lr(1e-3, 5e-2) if key != "dataset" else _lr(1e-4, 1e-3))
     else:
         lr = draw({"object": _lr(1e-3, 5e-2), "probe": _lr(1e-3, 2e-2), "dataset": _lr(1e-4, 2e-3)}[key])
     d = {"type": t, "lr": lr}
-    if t == "sgd" and draw(st.booleans()):
+    if t == "sgd" and lr != 1 and draw(st.booleans()):
         d["momentum"] = draw(st.sampled_from([0.5, 0.9]))
     if t != "sgd":
         extra = draw(st.sampled_from(["", "", "betas", "amsgrad", "weight_decay"]))
@@ -610,8 +635,10 @@ def _optimizer(draw, key):
 
 
 @st.composite
-def _scheduler(draw, n):
-    t = draw(st.sampled_from(["none", "exp", "linear", "cyclic", "plateau"]))
+def _scheduler(draw, n, need=False):
+    """need=True: never 'none'.  Parameters are chosen so that every scheduler acts within 6 iterations."""
+    kinds = ["exp", "linear", "cyclic", "plateau"] + ([] if need else ["none"])
+    t = draw(st.sampled_from(kinds))
     if t == "none":
         return draw(st.sampled_from([{}, {"type": "none"}]))
     if t == "exp":
@@ -644,49 +671,70 @@ def _strip(d):
     return {k: v for k, v in d.items() if not k.startswith("_")}
 
 
+def _tv_ok(c):
+    """Which total-variation weights may be non-zero.
+
+    TV is mean|diff|: its gradient is sign(diff), discontinuous where neighbours are equal -- and TV pulls
+    neighbours towards equality.  Under Adam/AdamW (gradient normalisation) the values move in steps of
+    order lr, reach ties up to rounding within a few iterations, and the sign of a tie is decided by
+    rounding noise, which legitimately differs between a run and its reloaded continuation (the pattern
+    order inside the full batch is re-seeded).  Measured: deviations up to 0.7e-4 at weight 0.01.  Under
+    SGD a tie needs |diff| < 1e-8 by chance (never observed) and a flipped sign moves a pixel by
+    2*lr*w/N <= 2e-6.  So TV weights are drawn only for a model driven by SGD (in every call), and for
+    the object only from a random-array start (a uniform start is all ties)."""
+    fam = {k: ("sgd" if v["type"] == "sgd" else "adam") for k, v in c["opt"].items()}
+    return {
+        "object": fam.get("object") == "sgd" and c["obj_init"] == "array",
+        "probe": fam.get("probe", "sgd") == "sgd" and c["probe_init"] != "parametric",
+        "dataset": fam.get("dataset") == "sgd",
+    }
+
+
 @st.composite
-def _constraints(draw, S, M, with_dataset_opt, tv_ok):
-    """tv_ok: total-variation weights on the object are only drawn when the object starts from a random
-    array.  |x| has a kink at 0: from a uniform start neighbouring pixels are tied exactly (or up to
-    rounding), the sign of their difference -- and with it a gradient term of size weight/N -- is then
-    decided by rounding noise, which legitimately differs between a run and its reloaded continuation."""
-    c = {}
+def _constraints(draw, c):
+    S = c["S"]
+    tv = _tv_ok(c)
+    out = {}
     o = {}
     if draw(st.booleans()):
         o["positivity"] = draw(st.booleans())
     if S > 1 and draw(st.booleans()):
         o["identical_slices"] = draw(st.booleans())
-    if tv_ok and draw(st.integers(0, 2)) == 0:
-        o["tv_weight_xy"] = draw(st.sampled_from([0, 1e-3, 1e-2, 0.1]))
-    if tv_ok and S > 1 and draw(st.integers(0, 2)) == 0:
-        o["tv_weight_z"] = draw(st.sampled_from([0, 1e-3, 1e-2]))
+    if tv["object"] and draw(st.booleans()):
+        o["tv_weight_xy"] = draw(st.sampled_from([1e-3, 1e-4, 0]))
+    if tv["object"] and S > 1 and draw(st.booleans()):
+        o["tv_weight_z"] = draw(st.sampled_from([1e-3, 1e-4, 0]))
     if o:
-        c["object"] = o
+        out["object"] = o
     p = {}
     if draw(st.booleans()):
         p["orthogonalize_probe"] = draw(st.booleans())
-    if draw(st.integers(0, 3)) == 0:
-        p["tv_weight"] = draw(st.sampled_from([0.0, 1e-3, 1e-2]))
+    if tv["probe"] and draw(st.booleans()):
+        p["tv_weight"] = draw(st.sampled_from([1e-3, 1e-4, 0.0]))
     if p:
-        c["probe"] = p
-    if with_dataset_opt:
+        out["probe"] = p
+    if "dataset" in c["opt"]:
         d = {}
         if draw(st.booleans()):
             d["descan_shifts_constant"] = draw(st.booleans())
-        if draw(st.integers(0, 2)) == 0:
-            d["descan_tv_weight"] = draw(st.sampled_from([0.0, 1e-3, 1e-2]))
+        if tv["dataset"] and draw(st.booleans()):
+            d["descan_tv_weight"] = draw(st.sampled_from([1e-3, 1e-4, 0.0]))
         if d:
-            c["dataset"] = d
-    return c
+            out["dataset"] = d
+    return out
 
 
 @st.composite
 def _problem(draw):
-    with_ds = draw(st.integers(0, 3)) == 3
-    M = draw(st.sampled_from([1, 1, 2]))
-    S = draw(st.sampled_from([1, 1, 2]))
-    keys = ["object"] + (["probe"] if draw(st.integers(0, 4)) > 0 else []) + (["dataset"] if with_ds else [])
-    return {
+    with_ds = draw(st.integers(0, 2)) == 2
+    # (ProbeParametric is not drawn: its aberration-coefficient gradients are float32 sums with heavy
+    # cancellation, 1e-3 relative noise between two summation orders, amplified by Adam: continuation after
+    # a reload then agrees only to ~1e-3, a property of that model, not of checkpointing)
+    probe_init = draw(st.sampled_from(["array", "array", "params"]))
+    M = 1 if probe_init == "parametric" else draw(st.sampled_from([1, 2, 1]))
+    S = draw(st.sampled_from([1, 2, 1]))
+    keys = ["object"] + (["probe"] if (probe_init == "parametric" or not _rare(draw, 5)) else []) + (["dataset"] if with_ds else [])
+    c = {
         "seed": draw(SEEDS),
         "geom": draw(_geometry(with_ds)),
         "M": M,
@@ -694,20 +742,26 @@ def _problem(draw):
         "thick": draw(_fl(2.0, 20.0, 1)) if S > 1 else None,
         "obj_type": draw(st.sampled_from(["complex", "pure_phase", "potential"])),
         "obj_init": draw(st.sampled_from(["array", "array", "random", "uniform"])),
-        "probe_init": draw(st.sampled_from(["array", "array", "params"])),
-        "semiangle": draw(st.sampled_from([15.0, 20.0, 25.0])),
-        "defocus": draw(st.sampled_from([0.0, 50.0, 150.0])),
-        "opt": {k: draw(_optimizer(k)) for k in keys},
+        "probe_init": probe_init,
+        "semiangle": draw(st.sampled_from([20.0, 15.0, 25.0])),
+        "defocus": draw(st.sampled_from([50.0, 0.0, 150.0])),
+        "learn_tilt": probe_init != "parametric" and _rare(draw, 6),
+        "opt": {k: draw(_optimizer(k, parametric=probe_init == "parametric")) for k in keys},
         "autograd": True,
         "loss_type": "l2_amplitude",
     }
+    return c
+
+
+def _family(v):
+    return "sgd" if v["type"] == "sgd" else "adam"
 
 
 @st.composite
 def resume_cases(draw):
     c = draw(_problem())
     n = draw(st.integers(2, 6))
-    nb = 2 if (n >= 3 and draw(st.integers(0, 4)) == 4) else 1
+    nb = 2 if (n >= 3 and _rare(draw, 5)) else 1
     if nb == 1:
         k = draw(st.one_of(st.integers(1, n - 1), st.integers(0, n)))
         segs = [k, n - k]
@@ -716,51 +770,48 @@ def resume_cases(draw):
         k2 = draw(st.integers(1, n - k1 - 1))
         segs = [k1, k2, n - k1 - k2]
     keys = list(c["opt"])
-    with_ds = "dataset" in keys
     sched = {}
     for key in keys:
-        if draw(st.booleans()):
-            s = draw(_scheduler(n))
+        int_lr = isinstance(c["opt"][key]["lr"], int)
+        if int_lr or draw(st.booleans()):
+            s = draw(_scheduler(n, need=int_lr))
             if s.get("_needs_iters") and segs[0] == 0:
                 # defaults derived from num_iters divide by zero for a 0-iteration call in the uninterrupted
                 # run as well: outside this property
-                s = {"type": "exp", "gamma": 0.9}
+                s = {"type": "exp", "gamma": 0.5}
             if s:
                 sched[key] = _strip(s)
     c["sched"] = sched
-    c["constraints"] = draw(_constraints(c["S"], c["M"], with_ds, c["obj_init"] == "array"))
+    c["constraints"] = draw(_constraints(c))
     later = []
-    for _ in range(len(segs) - 1):
+    for i in range(len(segs) - 1):
         sp = {}
-        r = draw(st.integers(0, 9))
-        if r in (0, 1):
-            sp["constraints"] = draw(_constraints(c["S"], c["M"], with_ds, c["obj_init"] == "array"))
-        elif r == 2:
+        r = draw(st.sampled_from([0, 0, 0, 0, 0, 0, 1, 1, 2, 3]))
+        if r == 1:
+            sp["constraints"] = draw(_constraints(c))
+        elif r == 2 and segs[i + 1] > 0:
             key = draw(st.sampled_from(keys))
-            s = _strip(draw(_scheduler(n)))
-            if s and not (("total_iters" not in s and s.get("type") == "linear") or (s.get("type") == "exp" and "gamma" not in s)):
-                sp["sched"] = {key: s}
+            s = draw(_scheduler(n, need=True))
+            if not s.get("_needs_iters"):
+                sp["sched"] = {key: _strip(s)}
         elif r == 3:
             key = draw(st.sampled_from(keys))
-            sp["opt"] = {key: draw(_optimizer(key))}
+            sp["opt"] = {key: draw(_optimizer(key, family=_family(c["opt"][key]), parametric=c["probe_init"] == "parametric"))}
         later.append(sp)
-    # the second call of a 0-iteration split must not rely on num_iters-derived scheduler defaults either
-    for i, sp in enumerate(later):
-        if segs[i + 1] == 0:
-            sp.pop("sched", None)
     c["later"] = later
     c["segments"] = segs
-    if c["M"] == 1 and not with_ds and draw(st.integers(0, 5)) == 5:
-        c["autograd"] = False
-    elif draw(st.integers(0, 5)) == 5:
+    if c["M"] == 1 and "dataset" not in keys and c["probe_init"] != "parametric" and not c["learn_tilt"] and _rare(draw, 6):
+        c["autograd"] = False  # analytic gradients (pixelated single-mode models only)
+    elif _rare(draw, 6):
         c["loss_type"] = draw(st.sampled_from(["l1_amplitude", "l2_intensity", "poisson"]))
     c.update(
         kind="resume",
         store=draw(st.sampled_from(["zip", "dir"])),
         load_device=draw(st.sampled_from([None, None, "cpu"])),
-        snap=draw(st.integers(0, 3)) == 3,
+        snap=_rare(draw, 4),
         batch=draw(st.sampled_from(["none", "none", "num"])),
-        device_arg=draw(st.integers(0, 4)) == 4,
+        device_arg=_rare(draw, 5),
+        orig_first=draw(st.booleans()),
     )
     return c
 
@@ -772,9 +823,10 @@ def skip_cases(draw):
     c["geom"]["C"] = min(c["geom"]["C"], 8)
     c["sched"] = {}
     keys = list(c["opt"])
-    if draw(st.booleans()):
-        c["sched"] = {keys[0]: {"type": "exp", "gamma": 0.8}}
-    c["constraints"] = draw(_constraints(c["S"], c["M"], "dataset" in keys, c["obj_init"] == "array"))
+    for key in keys:
+        if isinstance(c["opt"][key]["lr"], int) or draw(st.booleans()):
+            c["sched"][key] = {"type": "exp", "gamma": 0.5}
+    c["constraints"] = draw(_constraints(c))
     c["iters"] = draw(st.integers(1, 3))
     ns = draw(st.integers(2, 3))
     saves = []
@@ -794,18 +846,17 @@ def skip_cases(draw):
                 "form": draw(st.sampled_from(["list", "tuple", "str"])),
                 "raw": raw,
                 "store": draw(st.sampled_from(["zip", "dir"])),
-                "reuse": (not last) and i > 0 and draw(st.integers(0, 3)) == 3,
+                "reuse": False,
             }
         )
-    if draw(st.integers(0, 3)) == 3:
-        # the caller keeps one list and passes it to every call, including the final complete one
-        saves[-1]["reuse"] = True
-        saves[-1]["raw"] = True
-        for sv in saves:
+    if _rare(draw, 4):
+        # the caller keeps one list object and passes it to every call, including the final complete one
+        names = [s for s in saves[0]["skip"] if s not in ("_dset", "dset")]
+        for i, sv in enumerate(saves):
             sv["form"] = "list"
-        saves[0]["skip"] = [s for s in saves[0]["skip"] if s not in ("_dset", "dset")]
-        for sv in saves[1:]:
-            sv["reuse"] = True
+            sv["skip"] = list(names)
+            sv["reuse"] = i > 0
+        saves[-1]["raw"] = True
     c.update(kind="skip", saves=saves, snap=True, batch="none", device_arg=False)
     c["continue"] = draw(st.booleans())
     return c
